@@ -653,7 +653,28 @@ func buildHandlers() map[string]handler {
 		e.inputs = append(e.inputs, inputRec{Kind: "utf8ok", Name: "utf8ok", t: b})
 		return b
 	}
+	h["encoding/json.Marshal"] = func(e *Exec, fn *ssa.Function, a []Value) Value {
+		// size accounting only: an opaque one-byte encoding
+		sl := e.newSlice(types.Typ[types.Uint8], 1, 1)
+		return Tuple{sl, Iface{}}
+	}
 	h["regexp.MustCompile"] = func(e *Exec, fn *ssa.Function, a []Value) Value { return (*Cell)(nil) }
+	h["reflect.ValueOf"] = func(e *Exec, fn *ssa.Function, a []Value) Value {
+		so := e.zero(resultType(fn, 0)).(*StructObj)
+		so.fields[1].v = &Cell{v: a[0]}
+		return so
+	}
+	h["(reflect.Value).Type"] = func(e *Exec, fn *ssa.Function, a []Value) Value {
+		c, _ := a[0].(*StructObj).fields[1].v.(*Cell)
+		if c == nil {
+			e.goPanic("reflect: call of reflect.Value.Type on zero Value")
+		}
+		i := c.v.(Iface)
+		if i.t == nil {
+			e.goPanic("reflect: call of reflect.Value.Type on zero Value")
+		}
+		return Iface{t: reflectTypeType, v: &reflType{i.t}}
+	}
 	h["reflect.TypeOf"] = func(e *Exec, fn *ssa.Function, a []Value) Value {
 		i := a[0].(Iface)
 		if i.t == nil {
